@@ -18,6 +18,7 @@ func init() {
 	vpRegister("c13_steps", vpH_c13_steps)
 	vpRegister("c13_long", vpH_c13_long)
 	vpRegister("c13_wide", vpH_c13_wide)
+	vpRegister("c13_nulls", vpH_c13_nulls)
 	vpRegister("c13_exotic_keys", vpH_c13_exotic_keys)
 }
 
@@ -416,4 +417,59 @@ func vpH_c13_wide() {
 		c, ok := p.Steps[0].(*CommandStep)
 		vpAssert(ok && len(c.RemainingFields) == 1 && c.RemainingFields["x"+text] == any("v"), "an unknown key is kept whole")
 	}
+}
+
+// A null where an entry was expected (a dangling dash, `~`, JSON null) inside
+// any list or mapping of a step's typed fields: the parse never panics; it
+// yields a usable pipeline whose steps are all there and non-nil, or an error.
+func vpH_c13_nulls() {
+	m := vpMapOf("command", "c")
+	group := false
+	switch vpInt(0, 13) {
+	case 0:
+		m.Set("matrix", vpMapOf("setup", vpMapOf("os", []any{"a"}), "adjustments", []any{nil}))
+	case 1:
+		m.Set("matrix", vpMapOf("setup", []any{"a", nil}, "adjustments", []any{vpMapOf("with", "b"), nil}))
+	case 2:
+		m.Set("matrix", vpMapOf("setup", vpMapOf("os", []any{nil, "a"}, "arch", nil), "adjustments", []any{vpMapOf("with", vpMapOf("os", nil))}))
+	case 3:
+		m.Set("matrix", []any{nil})
+	case 4:
+		m.Set("plugins", []any{nil, "p#v1"})
+	case 5:
+		m.Set("plugins", []any{vpMapOf("p#v1", nil), vpMapOf()})
+	case 6:
+		m.Set("cache", vpMapOf("paths", []any{"x", nil}))
+	case 7:
+		m.Set("cache", []any{nil})
+	case 8:
+		m.Set("commands", []any{nil})
+	case 9:
+		m.Set("env", vpMapOf("A", nil, "B", []any{nil}))
+	case 10:
+		m.Set("matrix", vpMapOf("setup", nil, "adjustments", nil))
+	case 11:
+		m.Set("matrix", vpMapOf("adjustments", []any{vpMapOf("with", nil, "skip", nil)}))
+	case 12:
+		m = vpMapOf("group", nil, "steps", []any{vpMapOf("command", "k", "matrix", vpMapOf("setup", []any{"a"}, "adjustments", []any{nil}))})
+		group = true
+	default:
+		m = vpMapOf("wait", nil, "if", nil)
+	}
+	p := new(Pipeline)
+	err := ordered.Unmarshal(vpMapOf("steps", []any{m}), p)
+	if err != nil && !warning.Is(err) {
+		return // refusing the document is allowed
+	}
+	vpAssert(len(p.Steps) == 1 && p.Steps[0] != nil, "a usable result has its step, and the step is not nil")
+	if len(p.Steps) != 1 || p.Steps[0] == nil {
+		return
+	}
+	if g, isG := p.Steps[0].(*GroupStep); isG && group {
+		for _, s := range g.Steps {
+			vpAssert(s != nil, "no nil steps inside groups")
+		}
+	}
+	_, merr := json.Marshal(p)
+	vpAssert(merr == nil, "a usable pipeline marshals")
 }
